@@ -1,14 +1,48 @@
 use crate::tok::Ws;
 use anda_db_tfs::BM25Index;
+use h_common::Rng;
+use std::collections::BTreeSet;
+
+const V: [&str; 6] = ["red", "blue", "fox", "dog", "sun", "moon"];
 
 pub fn main(_args: &[String]) {
+    // 1. stale posting revived by re-insert
     let idx = BM25Index::new("p".to_string(), Ws, None);
     idx.insert(1, "red blue", 0).unwrap();
     idx.insert(2, "blue", 0).unwrap();
     println!("remove(1,'blue') = {}", idx.remove(1, "blue", 1));
-    println!("search red after stale remove: {:?}", idx.search("red", 10, None));
     idx.insert(1, "gold", 2).unwrap();
     println!("search red after re-insert of 1 as 'gold': {:?}", idx.search("red", 10, None));
-    println!("search gold: {:?}", idx.search("gold", 10, None));
-    println!("stats: {:?}", idx.stats());
+
+    // 2. do repeated multi-term queries agree?
+    let mut rng = Rng::new(7);
+    let mut bit_diffs = 0;
+    let mut order_diffs = 0;
+    let mut shown = 0;
+    for trial in 0..3000 {
+        let idx = BM25Index::new("p".to_string(), Ws, None);
+        let n = rng.range(2, 6) as u64;
+        let mut texts = vec![];
+        for id in 1..=n {
+            let len = rng.range(1, 6);
+            let t: Vec<&str> = (0..len).map(|_| *rng.pick(&V)).collect();
+            let t = t.join(" ");
+            idx.insert(id, &t, 0).unwrap();
+            texts.push(t);
+        }
+        let q = "red blue fox dog";
+        let mut seen_bits = BTreeSet::new();
+        let mut seen_order = BTreeSet::new();
+        for _ in 0..12 {
+            let r = idx.search(q, 10, None);
+            seen_bits.insert(r.iter().map(|h| (h.0, h.1.to_bits())).collect::<Vec<_>>());
+            seen_order.insert(r.iter().map(|h| h.0).collect::<Vec<_>>());
+        }
+        if seen_bits.len() > 1 { bit_diffs += 1; }
+        if seen_order.len() > 1 {
+            order_diffs += 1;
+            if shown < 3 { shown += 1; println!("trial {trial}: texts {texts:?} query {q:?} orders {seen_order:?} bits {seen_bits:?}"); }
+        }
+    }
+    println!("of 3000 indexes: {bit_diffs} with differing score bits across 12 repeats, {order_diffs} with differing ORDER");
 }
